@@ -1464,6 +1464,116 @@ def in_loop_body(loop, node):
     return any(contains(b, node) for b in loop.body)
 
 
+# ------------------------------------------------------------------------------------------------
+# R8 entries of a weight matrix are located on the non-zero mask, not by the extremum of the signed values
+# ------------------------------------------------------------------------------------------------
+
+_R8_CONTROL = '''
+def positive(weight):
+    cols = weight.argmax(axis=1)
+    return cols, weight[np.arange(weight.shape[0]), cols]
+
+
+def negative(weight):
+    cols = (weight != 0).argmax(axis=1)
+    return cols, weight[np.arange(weight.shape[0]), cols]
+
+
+def negative_abs(weight):
+    cols = np.argmax(np.abs(weight), axis=1)
+    return cols, weight[np.arange(weight.shape[0]), cols]
+'''
+
+_ARG_EXTREMA = ("argmax", "argmin", "nanargmax", "nanargmin")
+
+
+def _signed_weight_searches(ctx, f, proles=None, depth=0):
+    """[(call, operand)] - argmax/argmin taken directly over an array with the weight role (its signed entries)"""
+    roles = Roles(ctx, f, proles, depth)
+    out = []
+    for c in walk_shallow(f.node):
+        if not (isinstance(c, ast.Call) and call_name(c) in _ARG_EXTREMA):
+            continue
+        fn = c.func
+        if isinstance(fn, ast.Attribute) and not (isinstance(fn.value, ast.Name) and fn.value.id in R.MODULE_ALIASES):
+            operand = fn.value
+        elif c.args:
+            operand = c.args[0]
+        else:
+            continue
+        e = operand
+        masked = False
+        for _ in range(4):
+            if isinstance(e, (ast.Compare, ast.BoolOp)) or (isinstance(e, ast.UnaryOp) and isinstance(e.op, (ast.Invert, ast.Not))):
+                masked = True
+                break
+            if isinstance(e, ast.Call) and call_name(e) in ("abs", "absolute", "fabs", "isclose", "nonzero", "logical_not", "logical_and", "logical_or",
+                                                             "astype", "square", "sign"):
+                masked = call_name(e) != "sign"
+                break
+            if isinstance(e, ast.Name) and getattr(e, "_parent", None) is not None:
+                v = single_def_value(ctx, f, e)
+                if v is None:
+                    break
+                e = v
+                continue
+            break
+        if masked:
+            continue
+        if roles.atom(operand) == WGT:
+            out.append((c, operand))
+    return out
+
+
+def r8_entries_located_on_mask(ctx, rid):
+    """A (targets x sources) weight matrix may be replaced by a cheaper form (gather, per-row weight vector) when each row has a single
+    non-zero entry.  The explicit network has an edge wherever the entry is non-zero, whatever its sign: the column of that entry must
+    be found on the non-zero mask (`w != 0`, `abs(w)`, nonzero/where).  argmax / argmin of the signed values returns column 0 of an
+    all-non-positive (resp. non-negative) row - an inhibitory connection is silently dropped or attached to another source."""
+    from engine.srcmodel import FunctionInfo, set_parents
+    irm = ctx.repo.get_module(IR)
+    tree = ast.parse(_R8_CONTROL)
+    set_parents(tree)
+    ctrl = {fn.name: FunctionInfo(name=fn.name, qualname=f"<C16-R8 control>.{fn.name}", module=irm, node=fn) for fn in tree.body
+            if isinstance(fn, ast.FunctionDef)}
+    got = {k: len(_signed_weight_searches(ctx, v)) for k, v in ctrl.items()}
+    if got != {"positive": 1, "negative": 0, "negative_abs": 0}:
+        raise AnalysisError(f"{rid}: the signed-extremum recogniser failed its controls: {got}")
+    f0 = ctx.repo.get_func(IR, "NetworkGraph._generate_edge_equation")
+    # the generator and its private helpers, each under the roles of the arguments it is called with
+    todo, seen, n_funcs, hits = [(f0, None, 0)], set(), 0, []
+    while todo:
+        fo, proles, dpt = todo.pop()
+        key = (fo.qual, tuple(sorted((k, str(v)) for k, v in (proles or {}).items())))
+        if key in seen:
+            continue
+        seen.add(key)
+        n_funcs += 1
+        fv = R.view(ctx, fo)
+        for c, operand in _signed_weight_searches(ctx, fv, proles, dpt):
+            hits.append((fv, c, operand))
+        if dpt >= 2:
+            continue
+        roles = Roles(ctx, fv, proles, dpt)
+        for c in walk_shallow(fv.node):
+            if isinstance(c, ast.Call):
+                g = R.private_helper(ctx, fv, c)
+                if g is None or g.name in R.VIEW_KEEP:
+                    continue
+                hr = roles.helper_roles(c)
+                todo.append((g, hr[1] if hr is not None else None, dpt + 1))
+    for fv, c, operand in hits:
+        st = stmt_of(ctx.cfg(fv), c) or c
+        ctx.violation(rid, fv, st, f"`{norm(c)}` searches the signed entries of the weight array `{norm(operand)}`: for a row whose only entry is "
+                                   f"negative (or zero) it returns a column that carries no connection, so the compiled population circuit drops or "
+                                   f"re-routes an inhibitory edge the explicit network has; locate the entry on the mask (`{norm(operand)} != 0`) instead",
+                      label=_uniq(ctx, rid, fv, f"entry located by signed extremum: {norm(c)}"))
+    if not hits:
+        ctx.ok(rid, f0, f0.node, f"no entry of a weight array is located by argmax/argmin of its signed values ({n_funcs} function(s) of the "
+                                 f"edge-equation generator scanned; controls: positive matched, negatives silent)",
+               label="weight entries located on the non-zero mask")
+
+
 RULES = [
     ("C16-R1", r1_index_roles, 30),
     ("C16-R2", r2_coupling_helpers, 14),
@@ -1472,4 +1582,5 @@ RULES = [
     ("C16-R5", r5_source_records, 3),
     ("C16-R6", r6_no_state_carried_between_connections, 1),
     ("C16-R7", r7_emitted_terms_are_summed, 3),
+    ("C16-R8", r8_entries_located_on_mask, 1),
 ]
